@@ -35,6 +35,23 @@ theorem optionsBytes_ne_nil {os : Opts} (h : os ≠ []) : optionsBytes os ≠ []
 theorem option_cmd_lt {c : Nat} (h : c ∈ hstrpOptionValues) : c < 128 := by
   simp only [hstrpOptionValues, List.mem_cons, List.not_mem_nil, or_false] at h; omega
 
+/-- the octets of options that stand in front of another option: the continuation bit on every one -/
+def optionsCont (pre : Opts) : Bytes := pre.flatMap fun o => [o.1 ||| 0x80, o.2.length] ++ o.2
+
+/-- the chain splits at any position: what stands in front of a non-empty rest is written with the
+continuation bit, whatever the rest holds (in particular: whether or not an equal option follows) -/
+theorem optionsBytes_append (pre os : Opts) (h : os ≠ []) :
+    optionsBytes (pre ++ os) = optionsCont pre ++ optionsBytes os := by
+  induction pre with
+  | nil => simp [optionsCont]
+  | cons o tl ih =>
+    obtain ⟨c, d⟩ := o
+    have hne : tl ++ os ≠ [] := by simp [h]
+    obtain ⟨x, xs, hx⟩ := List.exists_cons_of_ne_nil hne
+    have : optionsBytes ((c, d) :: (tl ++ os)) = [c ||| 0x80, d.length] ++ d ++ optionsBytes (tl ++ os) := by
+      rw [hx]; rfl
+    simp only [List.cons_append, this, ih, optionsCont, List.flatMap_cons, List.append_assoc]
+
 /-- the parser loop reads back any non-empty option list, whatever follows it -/
 theorem parseOptionsGo_roundtrip (os : Opts) (hne : os ≠ []) (hwf : optsWF os) (rest : Bytes) (fuel : Nat)
     (hf : os.length ≤ fuel) : parseOptionsGo fuel (optionsBytes os ++ rest) = .ok os := by
